@@ -75,6 +75,7 @@ func cmdWGCases(args []string) error {
 			Hist []struct {
 				Op      string `json:"op"`
 				Arg     string `json:"arg"`
+				D       int    `json:"d"`
 				Blocked []int  `json:"blocked"`
 			} `json:"hist"`
 		}
@@ -104,8 +105,8 @@ func cmdWGCases(args []string) error {
 		for i, h := range c.Hist {
 			switch h.Op {
 			case "add":
-				mgr.Add(h.Arg, 1)
-				cnt[h.Arg]++
+				mgr.Add(h.Arg, h.D)
+				cnt[h.Arg] += h.D
 			case "done":
 				mgr.Done(h.Arg)
 				cnt[h.Arg]--
